@@ -82,8 +82,8 @@ Proof. exact Shipped07Cs.fixed_point_cs. Qed.
 Print Assumptions C01_fixed_point_shipped_cs.
 
 (* ... and for the whole shipped files TEMPLATEStateMachine.py / TEMPLATEStateMachine.h (Props/C07.v: C07_wf_out_TEMPLATEStateMachine_py / _h): all their USER tags
-   are fixed text; names_ok_py / names_ok_h: alphanumeric names, and the output lines of the transition / signature blocks, the initial-state lines and the
-   transition-table line under the element record (with its signature oracle) are plain lines (computed per case) *)
+   are fixed text; names_ok_py / names_ok_h (syntactic): alphanumeric names; the initial state, the per-state transition lists, the table cells and the
+   oracle's signature strings free of '{', backslash and CR (C07_dyn_plain_of_names) *)
 Theorem C01_fixed_point_shipped_py : forall (e : RefExpand16.elements) path (u : string -> list string),
   Shipped07X.names_ok_py e = true -> EngineDomain07.user_lines_plain e (EngineDomain07.strip Shipped07X.t_py) = true -> (forall k, block_ok (u k) = true) ->
   regen_file path (Shipped07X.fresh_py e) (on_disk u (items_of (Shipped07X.fresh_py e)))
